@@ -12,6 +12,11 @@ Case language (one command per line; the same lines are parsed by harness/c14/c1
   peerclose                 peer closes its end; poll + process_io (EPOLLHUP -> EVENT_CLOSE)
   peerfin                   peer half-closes; poll + process_io (recv()==0 -> NET_DEAD -> remove_interactive)
   dump                      dump <hex|->  = ring contents from consumer, message_length bytes
+  snoop <j> / unsnoop       new_set_snoop (this user, user j / 0)
+  react <tok>,<tok>,...     scripted reactions of this user's receive_snoop (LPC), one per call: e echo the text to itself,
+                            t<j> tell user j, d<j> destruct user j, x raise an error, n nothing.  After the first `react`
+                            every write prints the state of every user.
+  (wbeg/wend come from the add_message hook of src/comm.c, `close` from the interposed close())
 
 Trace lines:
   send <offered_len> a <acceptedhex>      |  send <offered_len> W|I|P|E<n> -
@@ -19,6 +24,7 @@ Trace lines:
   st <want> <producer> <consumer> <length> <dead>   |  st closed      (after every command but sendres / dump)
 """
 import os
+import re
 
 from nvlib import engine as E
 from nvlib import extract as X
@@ -247,6 +253,23 @@ class C14(Prop):
         mk("peerfin-serves-others", ["@2 sendres W", "@2 " + w(b"pending\n"), "@2 flush", "@1 peerfin", "@2 dump"])
         mk("peerclose-serves-others", ["@2 sendres W", "@2 " + w(b"pending\n"), "@2 flush", "sendres W", w(b"mine\n"),
                                        "sendres 2,P", "@1 peerclose", "@2 dump"])
+        # re-entrancy: the snooper's receive_snoop (LPC) writes, destructs, raises an error while add_message is running
+        mk("react-echo", ["@2 snoop 1", "@2 react e,e", w(b"seen\n"), vw(b"also\n"), w(b"plain\n"), "@2 dump"])
+        mk("react-error-keeps-write-interest", ["@2 snoop 1", "@2 react x", w(b"hi\n"), "cycle"])
+        mk("react-error-vwrite", ["@2 snoop 1", "@2 react x,x", "sendres W", vw(b"hi\n"), w(b"ho\n"), "wready"])
+        mk("react-destructs-writer-target", ["@2 snoop 1", "@2 react d1", w(b"hi\n"), w(b"gone\n"), "@2 dump"])
+        mk("react-destructs-target-pending-W", ["@2 snoop 1", "@2 react d1", "sendres W", w(b"hi\n"), "@2 dump"])
+        mk("react-destructs-target-vwrite", ["@2 snoop 1", "@2 react d1", vw(b"hi\n"), w(b"x")])
+        mk("react-destructs-console-target", ["@1 connect console", "@2 snoop 1", "@2 react d1", w(b"hi\n"), w(b"x")])
+        mk("react-destructs-itself", ["@2 snoop 1", "@2 react d2", w(b"hi\n"), w(b"again\n"), "@2 " + w(b"x")])
+        mk("react-tells-target", ["@2 snoop 1", "@2 react t1,t1", "sendres W", w(filler(N - 4)), w(b"z"), "dump"])
+        mk("react-chain", ["@2 snoop 1", "@3 snoop 2", "@2 react e,t1,d2", "@3 react t2,x,e", "sendres W", w(b"hi\n"),
+                           vw(b"AB\n"), w(b"C"), "@3 dump", w(b"D"), "@2 dump"])
+        mk("react-echo-full-ring", ["@2 snoop 1", "@2 react e,e,e", "@2 sendres W,5,W", w(filler(1990) + LF),
+                                    w(filler(1990, 3) + LF), w(filler(1990, 7) + LF), "@2 dump"])
+        mk("react-echo-console-snooper", ["@2 connect console", "@2 snoop 1", "@2 react e,e", "@2 sendres 3,W", w(b"hello\n"),
+                                          vw(b"v\n"), "wready"])
+        mk("react-tell-dead", ["@2 snoop 1", "@3 sendres P", "@3 " + w(b"x"), "@3 flush", "@2 react t3,d3,t3", w(b"a"), w(b"b"), w(b"c")])
         return B
 
     # ---- random ---------------------------------------------------------------
@@ -299,6 +322,13 @@ class C14(Prop):
             return rng.weighted([("E104", 6), ("P", 1), ("E11", 2), ("E4", 1)])      # E11/E4: EWOULDBLOCK/EINTR as plain numbers
         return k
 
+    def gen_react(self, rng, nusers):
+        toks = []
+        for _ in range(rng.range(1, 4)):
+            t = rng.weighted([("e", 8), ("t", 5), ("d", 2), ("x", 2), ("n", 1)])
+            toks.append(t + str(rng.range(1, nusers)) if t in ("t", "d") else t)
+        return ",".join(toks)
+
     def gen_case(self, rng, cid):
         body = []
         offset = 0
@@ -317,6 +347,12 @@ class C14(Prop):
             offset = rng.range(1, N - 1)
             body += [w(filler(offset, rng.below(1000))), "flush"]
         closed = {}
+        # a third of the multi-user cases script receive_snoop reactions (re-entrant add_message)
+        reactive = nusers > 1 and rng.chance(1, 2)
+        if reactive:
+            a, b = rng.range(1, nusers), rng.range(1, nusers)
+            body.append("@%d snoop %d" % (a, b))
+            body.append("@%d react %s" % (a, self.gen_react(rng, nusers)))
         for _ in range(rng.range(3, 25)):
             if closed and len(closed) == nusers and len(body) - max(closed.values()) > 3:
                 break           # after every connection went away only a few more ops are interesting
@@ -324,7 +360,8 @@ class C14(Prop):
             at = "" if (u == 1 and rng.chance(1, 2)) else "@%d " % u
             k = rng.weighted([("write", 10), ("vwrite", 3), ("sendres", 8), ("flush", 3), ("eflush", 1), ("cycle", 3),
                               ("wready", 4), ("flushall", 1), ("close", 1), ("peerfin", 1), ("peerclose", 1), ("dump", 1),
-                              ("snoop", 3 if nusers > 1 else 0), ("unsnoop", 1 if nusers > 1 else 0)])
+                              ("snoop", 3 if nusers > 1 else 0), ("unsnoop", 1 if nusers > 1 else 0),
+                              ("react", 2 if nusers > 1 and reactive else 0)])
             if kinds[u] == "console" and k in ("peerfin", "peerclose"):
                 k = "close"     # the console has no peer socket
             if k in ("write", "vwrite"):
@@ -341,6 +378,8 @@ class C14(Prop):
                     closed[u] = len(body)
             elif k == "snoop":
                 body.append("%ssnoop %d" % (at, rng.range(1, nusers)))
+            elif k == "react":
+                body.append("%sreact %s" % (at, self.gen_react(rng, nusers)))
             elif k in ("cycle", "wready", "flushall"):
                 body.append(k)
             else:
@@ -363,7 +402,7 @@ class C14(Prop):
              "vwrite_trailing_flush_sends": 0, "writes_on_dead_or_closed": 0,
              "lf_guard_chunk_N_minus_1": 0, "snoop_forwards": 0, "users_ascii_or_default": 0, "users_telnet": 0,
              "users_console": 0, "cases_multi_user": 0, "peerfin": 0, "peerclose": 0, "eflush_or_flushall": 0,
-             "sendres_E_keep": 0}
+             "sendres_E_keep": 0, "cases_reactive": 0, "nested_writes": 0, "lpcerr": 0, "react_destructs": 0}
         for c in cases:
             users = set()
             for l in c.lines:
@@ -383,6 +422,13 @@ class C14(Prop):
                     h["sendres_E_keep"] += sum(1 for x in t[1].split(",") if x in ("E11", "E4"))
             if len(users - {"@1"}) > 0:
                 h["cases_multi_user"] += 1
+            if any(" react " in " " + l + " " for l in c.lines):
+                h["cases_reactive"] += 1
+                nw = sum(1 for l in c.lines if " write " in " " + l or " vwrite " in " " + l or l.startswith(("write ", "vwrite ")))
+                tr = impl.get(c.id, [])
+                h["nested_writes"] += max(0, sum(1 for l in tr if " wbeg " in l) - nw)
+                h["lpcerr"] += sum(1 for l in tr if l.endswith(" lpcerr"))
+                h["react_destructs"] += sum(1 for l in c.lines if " react " in " " + l and re.search(r"[ ,]d\d", l) is not None)
             inw = {}        # per user: None / [kind, sends so far, last was accept, gone at start]
             gone = {}
             for l in impl.get(c.id, []):
